@@ -33,6 +33,9 @@ def absorb02(chk, results):
         for sig, w, case in viol:
             if case.get("prop") == "C02":
                 chk.violation(sig, w, case)
+            elif case.get("prop") == "C02-model":
+                chk.disagreements_checked += 1
+                chk.disagreement(sig, w, case)
             else:
                 chk.count("other-property-violations:" + case.get("prop", "?"))
         for sig, w, case in disag:
